@@ -68,3 +68,41 @@ Proof.
   - intros [ND F]. constructor; [exact ND|]. rewrite Forall_forall in F. intros t Ht. apply sibuniq_SU_t. auto.
   - intros H. inversion H as [f' ND F]; subst. split; [exact ND|]. apply Forall_forall. intros t Ht. apply sibuniq_SU_t. auto.
 Qed.
+
+(* ------------------------------------------------------------------ *)
+(* Audit F4: the table-driven decoder the correspondence runs for the mapper
+   kind "extra" ([CaseC14.dd_head]) satisfies the inverse-pair hypothesis in the
+   form [inverse_on_c] (the dicts that occur), so the round-trip theorem applies
+   to that very run *)
+Definition ex_sm_extra : smapper := sm_of (SMextra ex_tbl).
+
+Definition ex_dt : list (jv * res info) :=
+  [ (JDict (head_dict ex_sm_extra (ex_o 1 7 70 (DInt 70))), dok (I (-1) 7 70 false [79] (DInt 0) None []));
+    (JDict (head_dict ex_sm_extra (ex_o 2 7 70 (DStr [107]))), dok (I (-1) 7 70 false [79] (DInt 0) None []));
+    (JDict (head_dict ex_sm_extra (ex_o 3 3 33 (DInt 33))), dok (I (-1) 3 33 false [79] (DInt 0) None [])) ].
+
+Lemma ex_sm_extra_json : sm_json ex_sm_extra.
+Proof.
+  intros i res H. unfold ex_sm_extra. cbn [sm_of]. apply dset_tuple_free; [|exact H].
+  unfold enc_of, ex_tbl. cbn [zlookup].
+  repeat match goal with |- context [Z.eqb ?a ?b] => destruct (Z.eqb a b) end; reflexivity.
+Qed.
+
+Lemma ex_sm_extra_kids : sm_kids ex_sm_extra.
+Proof. intros i res H. unfold ex_sm_extra. cbn [sm_of]. rewrite dget_dset_other by discriminate. exact H. Qed.
+
+Lemma ex_table_decoder_inverse : Forall (allinfo (inverse_on_c ex_sm_extra (dd_head ex_dt))) ex_g.
+Proof.
+  apply allinfo_f_of_pre. intros t H. cbn in H.
+  destruct H as [<-|[<-|[<-|[<-|[]]]]]; intros D [->|(js & ->)];
+    (eexists; eexists; split; [vm_compute; reflexivity|]; split; [repeat split|]; split; vm_compute; reflexivity).
+Qed.
+
+Lemma ex_table_decoder_roundtrip :
+  exists f', tree_from_dict (dd_for (SMextra ex_tbl) ex_dt) 4 (map json_rt (to_dict_list ex_sm_extra ex_g)) = inl f' /\
+             Forall2 iso ex_g f'.
+Proof.
+  destruct (roundtrip_c ex_sm_extra (dd_head ex_dt) 4 ex_g ex_sm_extra_json ex_sm_extra_kids ex_g_sibuniq
+                        ex_table_decoder_inverse) as (f' & E & I & _).
+  exists f'. split; [exact E|exact I].
+Qed.
